@@ -526,3 +526,107 @@ fn c16_clause_plan_every_clause() {
     assert!(r.is_err(), "OBL:C16.clause.plan_checks_every_clause");
     kani::cover!(true, "COVER:reach");
 }
+
+// ---------------------------------------------------------------------------
+// handle resolution (needs `--max-field-sensitivity-array-size 4096`, set in
+// units/C16.toml: without it the shortest accepted plan ran out of memory)
+// ---------------------------------------------------------------------------
+
+fn archive(target: ElementRef) -> MutationClause {
+    MutationClause::Archive(RemovalStatement { target, where_clauses: None, limit: None, expect_state: None })
+}
+
+fn create_concept_bare(handle: &'static str) -> MutationClause {
+    MutationClause::CreateConcept(ConceptCreate {
+        handle: sv(handle),
+        r#type: None,
+        client_key: None,
+        name: None,
+        set_fields: None,
+        set_attributes: None,
+        set_facets: Vec::new(),
+        set_structural: None,
+    })
+}
+
+/// A handle that no clause of the plan declares and no WHERE binds is rejected:
+/// `ARCHIVE ?x` and `MERGE CONCEPT ?s INTO :k` as one-clause plans.
+#[kani::proof]
+#[kani::unwind(12)]
+#[kani::stub(alloc::fmt::format, stub_format)]
+fn c16_clause_plan_unbound_handle() {
+    {
+        stack_vec!(cl = [archive(ElementRef::Handle(sv("x")))]);
+        let r = ManuallyDrop::new(validate_plan(&plan(cl)));
+        assert!(r.is_err(), "OBL:C16.clause.unbound_handle_rejected");
+    }
+    {
+        stack_vec!(
+            cl = [MutationClause::MergeConcept(MergeConcept {
+                source: ElementRef::Handle(sv("s")),
+                into: ElementRef::Param(sv("k")),
+                where_clauses: None,
+                expect_version: None,
+            })]
+        );
+        let r = ManuallyDrop::new(validate_plan(&plan(cl)));
+        assert!(r.is_err(), "OBL:C16.clause.unbound_handle_rejected");
+    }
+    kani::cover!(true, "COVER:reach");
+}
+
+/// `CREATE CONCEPT ?h {} ; ARCHIVE ?x` — declaring one handle does not bind another.
+#[kani::proof]
+#[kani::unwind(12)]
+#[kani::stub(alloc::fmt::format, stub_format)]
+fn c16_clause_plan_wrong_handle() {
+    stack_vec!(cl = [create_concept_bare("h"), archive(ElementRef::Handle(sv("x")))]);
+    let r = ManuallyDrop::new(validate_plan(&plan(cl)));
+    assert!(r.is_err(), "OBL:C16.clause.unbound_handle_rejected");
+    kani::cover!(true, "COVER:reach");
+}
+
+/// Not everything is rejected by `validate_plan`: the shortest plan
+/// `CREATE CONCEPT ?h {}` is accepted (no obligation of C16 asks for acceptance;
+/// this is the vacuity guard of the plan-level rejections).
+#[kani::proof]
+#[kani::unwind(12)]
+#[kani::stub(alloc::fmt::format, stub_format)]
+fn c16_clause_plan_accepts_minimal() {
+    stack_vec!(cl = [create_concept_bare("h")]);
+    let r = ManuallyDrop::new(validate_plan(&plan(cl)));
+    kani::cover!(r.is_ok(), "COVER:minimal_plan_accepted");
+    kani::cover!(true, "COVER:reach");
+}
+
+/// Bound handles are accepted: by the clause's own WHERE (`ARCHIVE ?x WHERE
+/// { ?x ASSERTION {} }`) and by an earlier clause (`CREATE CONCEPT ?h {} ;
+/// ARCHIVE ?h`). Cover only: vacuity guard of `unbound_handle_rejected`
+/// (thorough tier).
+#[kani::proof]
+#[kani::unwind(12)]
+#[kani::stub(alloc::fmt::format, stub_format)]
+fn c16_clause_plan_accepts_bound() {
+    let by_where = {
+        stack_vec!(wh = [WhereClause::Assertion { variable: sv("x"), matcher: ObjectMatcher::new() }]);
+        stack_vec!(
+            cl = [MutationClause::Archive(RemovalStatement {
+                target: ElementRef::Handle(sv("x")),
+                where_clauses: Some(wh),
+                limit: None,
+                expect_state: None,
+            })]
+        );
+        let r = ManuallyDrop::new(validate_plan(&plan(cl)));
+        r.is_ok()
+    };
+    let by_plan = {
+        stack_vec!(cl = [create_concept_bare("h"), archive(ElementRef::Handle(sv("h")))]);
+        let r = ManuallyDrop::new(validate_plan(&plan(cl)));
+        r.is_ok()
+    };
+    kani::cover!(by_where, "COVER:where_bound_accepted");
+    kani::cover!(by_plan, "COVER:plan_bound_accepted");
+    kani::cover!(true, "COVER:reach");
+}
+
